@@ -6,6 +6,7 @@ CONSTANTS
   Swapped = FALSE
   KeepLen = FALSE
   SessShared = FALSE
+  DoubleRelease = FALSE
 INIT Init
 NEXT Next
 INVARIANT ModelSane
